@@ -225,8 +225,8 @@ theorem applyFn_noPanic : ∀ (fuel : Nat) (f : Val) (args : List Val), NoPanic 
       split
       · simp [NoPanic]
       · split
-        · have hc := convertAll_noPanic b.params args
-          cases hcs : convertAll b.params args with
+        · have hc := convertAll_noPanic (b.paramsAt args.length) args
+          cases hcs : convertAll (b.paramsAt args.length) args with
           | error e => simp [NoPanic, hcs] at hc ⊢; exact hc
           | ok cs =>
             simp only []
@@ -353,7 +353,7 @@ theorem simplifyBoth_lambdaFree (argc : String → Option Nat) :
 
 theorem simplify_lambdaFree (e s : Expr) (hl : e.lambdaFree = true) (h : simplify e = some s) : s.lambdaFree = true := by
   unfold simplify simplifyWith at h
-  cases h1 : Simplify.simplifyBoth Simplify.tableArgc (e.size + 1) e with
+  cases h1 : Simplify.simplifyBoth Simplify.tableArgcV (e.size + 1) e with
   | none => simp [h1] at h
   | some r =>
     obtain ⟨s', m⟩ := r
